@@ -35,7 +35,7 @@ def arm_fns(cx, ty):
             ok, _ = g.guarded(c.at, lambda lits: any(l[0] == "in" and is_f(l[1], "Message.msg_type") and l[2] == frozenset([ty]) for l in lits))
             if ok:
                 args = call_args(cx, c)
-                if any(a[0] == "param" and (c.fn.body.local_adt(a[1]) or "").endswith("eraftpb::Message") for a in args):
+                if any(x[0] == "param" and (c.fn.body.local_adt(x[1]) or "").endswith("eraftpb::Message") for a in args for x in walk(a)):
                     f = cx.facts.fns[cx.prog.short[sp][0]]
                     out[f.key] = f
     return out
